@@ -11,8 +11,12 @@ import (
 
 	"google.golang.org/protobuf/encoding/protojson"
 	"google.golang.org/protobuf/proto"
+	"google.golang.org/protobuf/reflect/protodesc"
 	"google.golang.org/protobuf/reflect/protoreflect"
 	"google.golang.org/protobuf/reflect/protoregistry"
+	"google.golang.org/protobuf/types/descriptorpb"
+	"google.golang.org/protobuf/types/dynamicpb"
+	"google.golang.org/protobuf/types/known/anypb"
 	"google.golang.org/protobuf/verifmc/core"
 	"google.golang.org/protobuf/verifmc/ref/refjson"
 	"google.golang.org/protobuf/verifmc/univ"
@@ -431,8 +435,91 @@ func Run(c *core.Ctx, outputsOnly bool) {
 			c.Sample(map[string]any{"type": p.name, "slots": univ.Names([]*univ.Slot{alpha[len(alpha)/3], alpha[len(alpha)-1]})})
 		}
 	}
+	if !outputsOnly {
+		anyWithPrivateResolver(c)
+	}
 	c.Bounds["plans"] = planOut
 	_ = json.Valid
 	_ = refjson.Valid
 	_ = strings.Contains
+}
+
+// anyWithPrivateResolver: an Any whose payload type and extensions exist only
+// in the caller's Resolver must survive the JSON round trip made with that
+// Resolver (every payload of <=2 setters x 4 option sets).
+func anyWithPrivateResolver(c *core.Ctx) {
+	fdp := univ.SchemaFile("verif/c20/private.proto", "verif.c20.private", univ.Proto2, []univ.Shape{
+		{Name: "optional int32", Type: descriptorpb.FieldDescriptorProto_TYPE_INT32, Label: descriptorpb.FieldDescriptorProto_LABEL_OPTIONAL, Ext: true},
+		{Name: "repeated string", Type: descriptorpb.FieldDescriptorProto_TYPE_STRING, Label: descriptorpb.FieldDescriptorProto_LABEL_REPEATED, Ext: true},
+		{Name: "optional message", Type: descriptorpb.FieldDescriptorProto_TYPE_MESSAGE, Label: descriptorpb.FieldDescriptorProto_LABEL_OPTIONAL, Ext: true},
+	})
+	fdp.MessageType[2].Field = append(fdp.MessageType[2].Field, &descriptorpb.FieldDescriptorProto{Name: proto.String("id"), Number: proto.Int32(1), Type: descriptorpb.FieldDescriptorProto_TYPE_INT32.Enum(), Label: descriptorpb.FieldDescriptorProto_LABEL_OPTIONAL.Enum(), JsonName: proto.String("id")})
+	fd, err := protodesc.NewFile(fdp, protoregistry.GlobalFiles)
+	if err != nil {
+		panic(err)
+	}
+	types := &protoregistry.Types{}
+	xmd := fd.Messages().ByName("X")
+	types.RegisterMessage(dynamicpb.NewMessageType(xmd))
+	types.RegisterMessage(dynamicpb.NewMessageType(fd.Messages().ByName("Sub")))
+	var xts []protoreflect.ExtensionType
+	for i := 0; i < fd.Extensions().Len(); i++ {
+		xt := dynamicpb.NewExtensionType(fd.Extensions().Get(i))
+		types.RegisterExtension(xt)
+		xts = append(xts, xt)
+	}
+	type setter struct {
+		name string
+		f    func(m protoreflect.Message)
+	}
+	setters := []setter{
+		{"id=7", func(m protoreflect.Message) { m.Set(xmd.Fields().ByName("id"), protoreflect.ValueOfInt32(7)) }},
+		{"ext int32=-1", func(m protoreflect.Message) { m.Set(xts[0].TypeDescriptor(), protoreflect.ValueOfInt32(-1)) }},
+		{"ext repeated string+=é", func(m protoreflect.Message) {
+			m.Mutable(xts[1].TypeDescriptor()).List().Append(protoreflect.ValueOfString("é"))
+		}},
+		{"ext message{a:4}", func(m protoreflect.Message) {
+			s := dynamicpb.NewMessage(fd.Messages().ByName("Sub"))
+			s.Set(s.Descriptor().Fields().ByName("a"), protoreflect.ValueOfInt32(4))
+			m.Set(xts[2].TypeDescriptor(), protoreflect.ValueOfMessage(s))
+		}},
+	}
+	opts := []protojson.MarshalOptions{{}, {Multiline: true}, {UseProtoNames: true, EmitUnpopulated: true}, {UseEnumNumbers: true, EmitDefaultValues: true}}
+	n := univ.TupleCount(len(setters), 2)
+	univ.ForTuples(c, len(setters), 2, func(idx []int) {
+		var names []string
+		payload := dynamicpb.NewMessage(xmd)
+		for _, i := range idx {
+			setters[i].f(payload)
+			names = append(names, setters[i].name)
+		}
+		name := strings.Join(names, " ; ")
+		c.Eval(1)
+		c.Guard(func() string { return "any with private resolver case=" + name }, func() {
+			pb, err := proto.MarshalOptions{Deterministic: true}.Marshal(payload)
+			if err != nil {
+				panic(err)
+			}
+			a := &anypb.Any{TypeUrl: "type.googleapis.com/" + string(xmd.FullName()), Value: pb}
+			for oi, o := range opts {
+				o.Resolver = types
+				jb, err := o.Marshal(a)
+				if err != nil {
+					c.Violation(fmt.Sprintf("protojson.Marshal of an Any resolvable through MarshalOptions.Resolver fails opts#%d case=[%s]", oi, name), err.Error())
+					continue
+				}
+				var back anypb.Any
+				if err := (protojson.UnmarshalOptions{Resolver: types}).Unmarshal(jb, &back); err != nil {
+					c.Violation(fmt.Sprintf("protojson.Unmarshal rejects its own Any output opts#%d case=[%s]", oi, name), map[string]any{"err": err.Error(), "json": string(jb)})
+					continue
+				}
+				got := dynamicpb.NewMessage(xmd)
+				if err := (proto.UnmarshalOptions{Resolver: types}).Unmarshal(back.Value, got); err != nil || back.TypeUrl != a.TypeUrl || !proto.Equal(got, payload) {
+					c.Violation(fmt.Sprintf("Any payload changes in the JSON round trip with a caller-supplied Resolver opts#%d case=[%s]", oi, name), map[string]any{"json": string(jb), "value_in": fmt.Sprintf("%x", pb), "value_out": fmt.Sprintf("%x", back.Value)})
+				}
+			}
+		})
+	})
+	c.DistinctN(int64(n))
+	c.Bounds["any_private_resolver_payloads"] = n
 }
